@@ -10,7 +10,8 @@ P("C36",
              "calls in ANY order and ended by Terminate, that the model of DBTracer leaves in the database exactly one trace row "
              "(ID, parent, kind, what, location, start, end) for each task that was running at some point while tracing was on, "
              "its tags and its milestones (first of every instant) with it, and one segment per tracing window. The model is "
-             "compared row for row with a real DBTracer writing through datarecording into a real SQLite file on every run.",
+             "compared row for row with a real DBTracer writing through datarecording into a real SQLite file on every run; "
+             "c36_model_agreement_implies_property links the two case evaluators.",
   level_note="Trusted: Coq kernel + vm_compute; the Go harness (clock, calls, SQL read-back with the location join); the "
              "hand-written model of dbtracer.go; datarecording + database/sql + SQLite as the identity on rows (times < 2^53, "
              "IDs < 2^63, fewer than 100000 buffered rows so that only the tracer's own Flush calls write).",
